@@ -177,6 +177,10 @@ def run(ctx):
                         bad = "a linear combination of the x- and y-row vanishes whenever the two components cancel (e.g. an exactly anti-diagonal tangent (a, -a))"
                     elif len(arg[1]) == 1 and len(arg[1][0][0]) == 2:
                         bad = "the product of the x- and y-row vanishes whenever one component is exactly 0 (axis-parallel tangents)"
+            # conjunction of the two component tests: (x != 0) & (y != 0) / logical_and - both components non-zero
+            nzx, nzy = T.cmp("NotEq", rx, T.ZERO), T.cmp("NotEq", ry, T.ZERO)
+            if arg is not None and arg[0] == "call" and arg[1] in ("bitand", "numpy.logical_and", "numpy.bitwise_and") and set(arg[2]) == {nzx, nzy}:
+                bad = "the conjunction of the two component tests is false whenever one component is exactly 0 (axis-parallel tangents)"
             if bad:
                 ctx.violation("GUARD", f"{g.qualname} / GUARD / keep-test counts occupied columns", where,
                               f"the keep-test counts non-zero entries of {T.show(T.alpha(arg))[:100]}: {bad}; it must count interfaces (columns with a non-zero pair)")
@@ -426,26 +430,44 @@ def run(ctx):
     ret = scf.ret()
     bad_pairs = []
 
+    centroid_paths = []
+    path = []
+
     def pairwise(x, y):
         if x[0] == "phi" and y[0] == "phi" and x[1] == y[1]:
+            path.append(x[1])
             pairwise(x[2], y[2])
+            path[-1] = T.b_not(x[1])
             pairwise(x[3], y[3])
+            path.pop()
         elif x[0] == "idx" and y[0] == "idx" and x[1] == y[1] and x[2] == T.num(0) and y[2] == T.num(1):
             pass
         elif T.alpha(x) == T.alpha(T.call("mean", (xs,))) and T.alpha(y) == T.alpha(T.call("mean", (ys,))):
-            pass
+            centroid_paths.append(tuple(path))
         else:
             bad_pairs.append((T.show(T.alpha(x))[:80], T.show(T.alpha(y))[:80]))
     def walk_ret(t):
         # a pair of choices, or a choice between pairs (early returns): the same pairs either way
         if t[0] == "phi":
+            path.append(t[1])
             walk_ret(t[2])
+            path[-1] = T.b_not(t[1])
             walk_ret(t[3])
+            path.pop()
         elif t[0] == "seq" and len(t[1]) == 2:
             pairwise(t[1][0], t[1][1])
         else:
             raise AnalysisError(f"{ctx.where(cf)}: return shape of calculate_circle_center not understood: {T.show(T.alpha(t))[:160]}")
     walk_ret(ret)
+    # the centroid is the answer for an unknown method only: under 'dlite' and 'taubinSVD' (its fallback included) the centre is a circle fit
+    mparam = T.sym(cf.params[1]) if len(cf.params) > 1 else T.sym("method")
+    for pth in centroid_paths:
+        conj = [c for p_ in pth for c in T.conjuncts(p_)]
+        fit_method = [m_ for m_ in ("dlite", "taubinSVD") if T.cmp("Eq", mparam, ("str", m_)) in conj]
+        if fit_method:
+            ctx.violation("FORM", f"{cf.qualname} / FORM / under a circle-fit method the centre is a circle fit on every path", ctx.where(cf),
+                          f"with method='{fit_method[0]}' one path ({[T.show(c)[:50] for c in conj]}) returns the centroid of the points instead of a fitted centre: "
+                          f"the centroid of an arc lies inside the chord, so the 'tangent' J*(v - c) comes out nearly normal to the interface")
     ctx.check(not bad_pairs, "FORM", f"{cf.qualname} / FORM / returns (centre[0], centre[1]) of one fit", ctx.where(cf),
               "x and y of the same fitted centre", f"returned centre pairs {bad_pairs[:2]}")
 
